@@ -32,7 +32,7 @@ const ASCII_POOL: &[u8] = b"abcdefghijklmnopqrstuvwxyzABCDEFGHIJKLMNOPQRSTUVWXYZ
 const UNI_POOL: &[char] = &[
     'é', 'ß', 'ø', 'Ж', 'я', '中', '文', '日', '本', 'ñ', 'ü', '€', '☃', '✓', '🎮', '𝄞', '\u{a0}', '\u{feff}', 'İ', 'ǅ',
 ];
-const CTRL_POOL: &[char] = &['\t', '\n', '\r', '\x01', '\x1b', '\x7f', '\x08', '\x0b'];
+const CTRL_POOL: &[char] = &['\t', '\n', '\r', '\x01', '\x1b', '\x7f', '\x08', '\x0b', '\u{85}', '\u{9b}', '\u{2028}', '\u{fffe}', '\u{ffff}'];
 
 thread_local! {
     static NASTY: std::cell::Cell<bool> = const { std::cell::Cell::new(false) };
